@@ -2,6 +2,8 @@ package main
 
 import (
 	"fmt"
+	"go/token"
+	"go/types"
 	"strings"
 
 	"golang.org/x/tools/go/ssa"
@@ -176,7 +178,47 @@ func rulePolicySync(c *Ctx, rule string) {
 						_, isL := ex.Tuple.(*ssa.Lookup)
 						return isL
 					})))
-					c.ob(rule, a, "only galaxy's stale ipsets are destroyed", d, guardedBy(a, d, pre) && guardedBy(a, d, notNew), "DestroySet reachable only through HasPrefix(name, NamePrefix) and the not-in-the-new-set-map edge")
+					okG := guardedBy(a, d, pre) && guardedBy(a, d, notNew)
+					if !okG {
+						// both tests merged into a bool helper of the package: the destroy sits behind its true edge, and inside the
+						// helper a result other than false is computed only behind the prefix test, as `!found` of a map lookup
+						for _, h := range helperFns(a, 1) {
+							if rs := h.Signature.Results(); rs.Len() != 1 || !types.Identical(rs.At(0).Type().Underlying(), types.Typ[types.Bool]) {
+								continue
+							}
+							hp := guardEdges(h, predCall("strings.HasPrefix", func(call *ssa.Call) bool {
+								return isNamedString(c, call.Call.Args[1], polPkg, "NamePrefix")
+							}))
+							rNoPrefix := reachFromEntry(h, newCut().edge(hp...))
+							okH := len(hp) > 0
+							for _, ret := range returns(h) {
+								v := retVal(ret, 0)
+								if b, isC := constBoolVal(v); isC && !b {
+									continue
+								}
+								if rNoPrefix.has(ret) {
+									okH = false
+								}
+								u, isNot := v.(*ssa.UnOp)
+								if !isNot || u.Op != token.NOT {
+									okH = false
+									continue
+								}
+								ex, isEx := u.X.(*ssa.Extract)
+								if !isEx || ex.Index != 1 {
+									okH = false
+									continue
+								}
+								if _, isL := ex.Tuple.(*ssa.Lookup); !isL {
+									okH = false
+								}
+							}
+							if okH && guardedBy(a, d, guardEdges(a, predCall(fnNameForMatch(h), nil))) {
+								okG = true
+							}
+						}
+					}
+					c.ob(rule, a, "only galaxy's stale ipsets are destroyed", d, okG, "DestroySet reachable only through HasPrefix(name, NamePrefix) and the not-in-the-new-set-map edge")
 				}
 			}
 			c.ob(rule, fn, "stale ipsets are destroyed only after the rules were rewritten", nil, okD && nD > 0, "DestroySet is called only from the deferred clean-up closure, which runs after syncIptables returned")
